@@ -80,6 +80,8 @@ class ReferenceImpl(Derivable, Impl):
     def on_inherit(self, updater, bases):
 
         self.model.clear_obj(self)
+        # The reference may get another value from another base
+        self.model.clear_attr_referrers(self)
         self.refmode = bases[0].refmode     # The base may have changed
         if bases[0].has_interface():
 
